@@ -8,6 +8,7 @@ Import ListNotations.
 
 Inductive lclause :=
 | ClSinkAfterStop     (* a lsink invocation began although a Stop had returned and no Stop was in progress *)
+| ClSinkRunning       (* a sink invocation was still in progress (it ended) after the barrier was established *)
 | ClSyncAfterStop     (* an EmitSync that began after the barrier was not refused *)
 | ClStopGrace         (* a Stop returned only because its grace period expired (some goroutine could not be joined) *)
 | ClStuck             (* a call did not return (harness patience) *)
@@ -31,6 +32,7 @@ Definition lmon_ev (m : lmon) (e : levent) : lmon + lclause :=
       else inl {| m_in := pred (m_in m); m_ret := S (m_ret m);
                   m_bar := m_bar m || Nat.eqb (pred (m_in m)) 0; m_late := m_late m |}
   | ESinkBegin _ _ => if m_bar m then inr ClSinkAfterStop else inl m
+  | ESinkEnd _ => if m_bar m then inr ClSinkRunning else inl m
   | ESyncBegin t => if m_bar m then inl {| m_in := m_in m; m_ret := m_ret m; m_bar := true; m_late := t :: m_late m |} else inl m
   | ESyncEnd t ok => if ok && existsb (Nat.eqb t) (m_late m) then inr ClSyncAfterStop else inl m
   | ETimeout => inr ClStuck
